@@ -204,19 +204,23 @@ func c02Stanza(g G, kind string, i int, compNS bool) string {
 	default: // iq
 		typ := []string{"get", "set", "result", "error"}[g.N("itype", 4)]
 		attrs += " type='" + typ + "'"
-		switch g.Weighted("ipl", 2, 2, 2, 3, 1, 1, 1) {
-		case 6:
-			b.WriteString(c02Delegation(g, "iq"))
-		case 0:
-			b.WriteString("<query xmlns='jabber:iq:version'><name>n</name><version>1</version></query>")
-		case 1:
-			b.WriteString("<query xmlns='http://jabber.org/protocol/disco#info'><identity category='c' type='t'/><feature var='f'/></query>")
-		case 2:
-			b.WriteString("<query xmlns='jabber:iq:roster'><item jid='a@b' name='n'><group>g</group></item></query>")
-		case 3:
-			b.WriteString(c02Tree(g, g.Range("depth", 0, 5), c02NS[g.N("ns", len(c02NS)-1)]))
-		case 4:
-			b.WriteString("<wrap xmlns='unknown:wrap'><iq xmlns='jabber:client' id='inner' type='get'><query xmlns='jabber:iq:version'/></iq></wrap>")
+		// usually one payload child; sometimes several (the first decides the payload, the
+		// others must still be consumed whole)
+		for k, nk := 0, 1+g.Weighted("iq-extra-kids", 7, 2, 1); k < nk; k++ {
+			switch g.Weighted("ipl", 2, 2, 2, 3, 1, 1, 1) {
+			case 6:
+				b.WriteString(c02Delegation(g, "iq"))
+			case 0:
+				b.WriteString("<query xmlns='jabber:iq:version'><name>n</name><version>1</version></query>")
+			case 1:
+				b.WriteString("<query xmlns='http://jabber.org/protocol/disco#info'><identity category='c' type='t'/><feature var='f'/></query>")
+			case 2:
+				b.WriteString("<query xmlns='jabber:iq:roster'><item jid='a@b' name='n'><group>g</group></item></query>")
+			case 3:
+				b.WriteString(c02Tree(g, g.Range("depth", 0, 5), c02NS[g.N("ns", len(c02NS)-1)]))
+			case 4:
+				b.WriteString("<wrap xmlns='unknown:wrap'><iq xmlns='jabber:client' id='inner' type='get'><query xmlns='jabber:iq:version'/></iq></wrap>")
+			}
 		}
 		if typ == "error" {
 			b.WriteString("<error type='modify' code='400'><bad-request xmlns='" + nsStanzas + "'/></error>")
